@@ -3,19 +3,10 @@
    a node, when both append a group. *)
 From Coq Require Import List NArith Bool Arith Lia.
 From RPFT Require Import Base.Sexp Base.PyStr Base.PyStrFacts Base.Result Gen.Tables Flow.Lts Flow.Flow Flow.Closed
-     Flow.RowSem Comp.Compile Comp.CompileFacts Comp.CompileIds Comp.CompileInv Comp.Refine Comp.RefineFacts.
+     Flow.RowSem Comp.Compile Comp.CompileFacts Comp.CompileIds Comp.CompileInv Comp.CompileClass Comp.Refine Comp.RefineFacts.
 Import ListNotations.
 
 Definition cuu (sc : cstate) : list id := map cn_uuid (cs_nodes sc).
-
-(* the Python class of a node does not change when its exits / router are updated *)
-Definition same_class (b b' : cbody) : Prop :=
-  match b, b' with
-  | BBasic _, BBasic _ => True
-  | BSwitch c _, BSwitch c' _ => c = c'
-  | BRandom _, BRandom _ => True
-  | _, _ => False
-  end.
 
 Lemma class_ok_same cls rt b b' : same_class b b' -> class_ok cls rt b -> class_ok cls rt b'.
 Proof.
